@@ -7,9 +7,15 @@
       named D n false/true   the primary / auxiliary descriptors of D whose public name is n (string equality)
       get_call_handles       ProtocolBase.get_call_handles;  dispatch = the user functions a request runs, or NotFound
       names tns ps r n       request r names public name n of namespace tns through its protocol's channel
-      answer D n             Invoked (uids of named D n false ++ named D n true), or NotFound when there are none *)
-From Coq Require Import ZArith List Bool Permutation.
-From SpyneV Require Import Base.Prelude C11.Model C11.Proofs C11.Theorems C11.Examples.
+      answer D n             Invoked (uids of named D n false ++ named D n true), or NotFound when there are none
+      server_patterns t      HttpBase.__init__ of the repaired tree: the HttpPattern list (address, verb, method name)
+                             in the order match_pattern tries them, or Rejected RDupPattern
+      serve a                Application(...) then WsgiApplication(app): Built (routing table, pattern list) | Rejected
+      before p q             the sort key (address, verb or '') of q is <= that of p
+      pats_consistent l      patterns of l with the same (address, verb) belong to methods of one name
+      aux_no_pats D          auxiliary methods carry no HttpPatterns;  verbs_nonempty l: no verb is the empty string *)
+From Coq Require Import ZArith List Bool Permutation Sorted.
+From SpyneV Require Import Base.Prelude C11.Model C11.Proofs C11.PatProofs C11.Theorems C11.Examples.
 Import ListNotations.
 Open Scope Z_scope.
 
@@ -116,6 +122,39 @@ Theorem C11_http_fallback : forall tns ps verb pre n,
   method_request_string tns ps (RHttp verb (pre ++ SLASH :: n)) = method_key tns n.
 Proof. exact http_fallback. Qed.
 
+(** HTTP, server construction.  The pattern list is the patterns of the head method of every route, sorted
+    descending by (address, verb); a server is built iff no two methods carry the same (address, verb) *)
+Theorem C11_pattern_order : forall t,
+  ((exists ps, server_patterns t = Built ps) <-> pats_consistent (collect_patterns t))
+  /\ forall ps, server_patterns t = Built ps ->
+       Permutation ps (collect_patterns t) /\ StronglySorted before ps /\ pats_consistent ps.
+Proof. exact (fun t => conj (server_iff t) (http_patterns_order t)). Qed.
+
+(** DUPLICATES, HTTP.  Two primary methods of different names carrying the same HttpPattern: the server is rejected *)
+Theorem C11_identical_pattern_rejected : forall a t d1 d2 p,
+  construct a = Built t ->
+  let D := all_descs (a_services a) in
+  In d1 D -> In d2 D -> d_aux d1 = false -> d_aux d2 = false -> d_name d1 <> d_name d2 ->
+  In p (d_pats d1) -> In p (d_pats d2) ->
+  server_patterns t = Rejected RDupPattern.
+Proof. exact identical_pattern_rejected. Qed.
+
+(** ORDER, every channel.  For every permutation of the service list: a server is built iff it was, it tries
+    the same HttpPatterns in the same order, and every request whatsoever (named or not, any protocol) finds the
+    same primary handler and the same auxiliary handlers (the latter up to their order) *)
+Theorem C11_permutation_served : forall a a',
+  a_tns a = a_tns a' -> Permutation (a_services a) (a_services a') ->
+  aux_no_pats (all_descs (a_services a)) ->
+  ((exists s, serve a = Built s) <-> (exists s', serve a' = Built s'))
+  /\ forall t ps t' ps', serve a = Built (t, ps) -> serve a' = Built (t', ps') -> verbs_nonempty ps ->
+     ps = ps' /\
+     forall r, exists p x x',
+       get_call_handles (a_tns a) t (method_request_string (a_tns a) ps r) = p ++ x
+       /\ get_call_handles (a_tns a') t' (method_request_string (a_tns a') ps' r) = p ++ x'
+       /\ Permutation x x' /\ (length p <= 1)%nat
+       /\ Forall (fun d => d_aux d = false) p /\ Forall (fun d => d_aux d = true) x.
+Proof. exact permutation_served. Qed.
+
 (** ------------------------------------------------------------------ non-vacuity *)
 
 (** x_app = [S1 {foo, Foo, foobar (+ GET /api/<x>)}; S2 auxiliary {foo}] constructs; "foo" runs 1 then 4 *)
@@ -172,4 +211,31 @@ Proof.
   split; [vm_compute; reflexivity|].
   split; [vm_compute; reflexivity|].
   vm_compute. repeat split; reflexivity.
+Qed.
+
+(** S1.foobar and S4.bar both carry GET /api/<x>: the application is built, the server is not;
+    S5.baz carries /api/<x> for any verb: both listings are served, with the pattern of foobar (which names a
+    verb) first, so GET /api/q runs foobar (3) and DELETE /api/q runs baz (7) in both *)
+Example C11_ex_patterns :
+  (exists t, construct x_app_pat = Built t /\ server_patterns t = Rejected RDupPattern)
+  /\ (exists t ps t' ps', serve x_app_tie = Built (t, ps) /\ serve x_app_tie_rev = Built (t', ps')
+        /\ ps = ps' /\ map snd ps = [x_foobar; [98; 97; 122]]
+        /\ dispatch x_tns t ps (RHttp x_GET [47; 97; 112; 105; 47; 113]) = Invoked [3]
+        /\ dispatch x_tns t' ps' (RHttp x_GET [47; 97; 112; 105; 47; 113]) = Invoked [3]
+        /\ dispatch x_tns t ps (RHttp [68; 69; 76; 69; 84; 69] [47; 97; 112; 105; 47; 113]) = Invoked [7]
+        /\ dispatch x_tns t' ps' (RHttp [68; 69; 76; 69; 84; 69] [47; 97; 112; 105; 47; 113]) = Invoked [7])
+  /\ Permutation (a_services x_app_tie) (a_services x_app_tie_rev)
+  /\ aux_no_pats (all_descs (a_services x_app_tie))
+  /\ verbs_nonempty (match serve x_app_tie with Built (_, ps) => ps | Rejected _ => [] end)
+  /\ pats_consistent (collect_patterns x_table) /\ x_ps <> [].
+Proof.
+  split; [eexists; split; vm_compute; reflexivity|].
+  split; [do 4 eexists; repeat split; vm_compute; reflexivity|].
+  split; [apply Permutation_rev|].
+  split.
+  - intros d I A. vm_compute in I. repeat (destruct I as [<- | I]; [try discriminate A; reflexivity|]). destruct I.
+  - split; [|split].
+    + intros p I. vm_compute in I. repeat (destruct I as [<- | I]; [discriminate|]). destruct I.
+    + apply server_iff. vm_compute. eauto.
+    + vm_compute. discriminate.
 Qed.
